@@ -249,6 +249,7 @@ static int64_t mon_walk_deadline(void)
   return best;
 }
 
+static unsigned mon_timer_calls;
 static void mon_timer_check(void)
 {
   static const long maxes[][2] = { { -1, 0 }, { 0, 0 }, { 0, 1000 }, { 0, 250000 }, { 3, 0 }, { 100000, 999999 } };
@@ -258,6 +259,7 @@ static void mon_timer_check(void)
     return;
   }
   dl = mon_walk_deadline();
+  mon_timer_calls++;
   for (i = 0; i < sizeof(maxes) / sizeof(maxes[0]); i++) {
     struct timeval maxtv, tvbuf, *r;
     int64_t        got, rem;
@@ -268,7 +270,17 @@ static void mon_timer_check(void)
     } else {
       maxtv.tv_sec  = maxes[i][0];
       maxtv.tv_usec = maxes[i][1];
-      r             = ares_timeout(app_channel, &maxtv, &tvbuf);
+      if ((mon_timer_calls + i) % 2) {
+        r = ares_timeout(app_channel, &maxtv, &tvbuf);
+      } else {
+        /* ares_timeout(3): "It is valid for maxtv and tv to have the same value": one buffer in both roles */
+        tvbuf = maxtv;
+        r     = ares_timeout(app_channel, &tvbuf, &tvbuf);
+        if (r == &tvbuf && dl < 0) {
+          r = &maxtv; /* the caller's maximum came back (same object) */
+        }
+        MON_EVAL("timer_timeout_value_aliased");
+      }
     }
     MON_EVAL("timer_timeout_value");
     if (dl < 0) {
